@@ -25,6 +25,7 @@ rng = np.random.default_rng(SEED)
 OUT = []
 QREF = {3: 1.2, 4: 3.0, 5: 91.0, 6: 400.0}
 NOMINAL = [1.4, 4.5, 172.0]
+ALPHAS = {3: 0.35, 4: 0.25, 5: 0.118, 6: 0.0955}      # alpha_s(Qref) of the real world: the inputs stay in the perturbative range
 
 
 def emit(name, ok, detail="", fn="eko.msbar_masses:compute"):
@@ -42,8 +43,12 @@ def draw(nf_ref, consistent=True, break_quark=None):
             hi = min(qref, 3.0 * m) if i + 4 == nf_ref else 2.0 * m
             s = rng.uniform(1.05 * m, max(1.06 * m, hi))
         else:
-            lo = max(qref, 0.4 * m) if i + 4 == nf_ref + 1 else 0.5 * m
-            s = rng.uniform(min(lo, 0.94 * m), 0.95 * m)
+            if i + 4 == nf_ref + 1:
+                m = max(m, qref / 0.85)            # the first quark above the coupling reference: Qref <= reference scale < mass must be possible
+                lo = max(qref, 0.4 * m)
+            else:
+                lo = 0.5 * m
+            s = rng.uniform(lo, max(0.95 * m, 1.01 * lo))
         if not consistent and break_quark == i:
             s = 0.8 * m if active_at_ref else 1.2 * m        # wrong side of the mass
         vals.append(m)
@@ -54,7 +59,7 @@ def draw(nf_ref, consistent=True, break_quark=None):
 @deal.ensure(lambda inp, result: result == [], message="MSbar masses are not sorted fixed points")
 def fixed_points(inp):
     vals, scales, nf_ref, order, method, ratios, xif = inp
-    ci = CouplingsInfo.from_dict(dict(alphas=0.118 if nf_ref >= 5 else 0.35, alphaem=0.007496, ref=(QREF[nf_ref], nf_ref), em_running=False))
+    ci = CouplingsInfo.from_dict(dict(alphas=ALPHAS[nf_ref], alphaem=0.007496, ref=(QREF[nf_ref], nf_ref), em_running=False))
     mref = HeavyQuarkMasses([QuarkMassRef([v, s]) for v, s in zip(vals, scales)])
     with warnings.catch_warnings():
         warnings.simplefilter("ignore")
@@ -70,7 +75,12 @@ def fixed_points(inp):
                 bad.append(f"quark {i}: reference given at its own mass but result differs")
             continue
         nf_patch = i + 4 if i + 3 < nf_ref else i + 3      # patch adjoining the threshold of quark i on the side of the coupling reference
-        nf_scale = nf_patch        # the statement: the running from the reference scale to m happens inside that patch (the draws keep the reference scale away from the other thresholds)
+        # flavour number at the reference scale of the mass: the patch itself unless the reference scale lies beyond another quark's threshold
+        thr = np.array(res) * np.array(ratios)
+        others = [j for j in range(3) if j != i]
+        nf_scale = nf_patch
+        if i + 3 >= nf_ref and any(scales[i] ** 2 < thr[j] for j in others if j < i):
+            nf_scale = 3 + int(np.sum(scales[i] ** 2 > thr))      # e.g. the top mass given at a scale below m_b: the running crosses the lighter thresholds
         with warnings.catch_warnings():
             warnings.simplefilter("ignore")
             back = msbar_masses.evolve(vals[i] ** 2, scales[i] ** 2, sc, ratios, xif**2, m2, nf_ref=nf_scale, nf_to=nf_patch)
@@ -98,11 +108,26 @@ def _main():
                     emit(name, True)
                 except Exception as e:
                     emit(name, False, f"{type(e).__name__}: {str(e)[:300]}")
+    # reference scales beyond a lighter quark's threshold (forward quarks, low coupling reference): the running mass crosses that threshold on its way
+    for nf_ref, quark, scale in ((4, 2, 3.0), (3, 1, 1.25), (3, 2, 1.3), (4, 2, 3.8)):
+        for order in ((2, 0), (3, 0), (4, 0)):
+            for method in (CouplingEvolutionMethod.EXPANDED, CouplingEvolutionMethod.EXACT):
+                vals, scales = draw(nf_ref)
+                scales[quark] = scale
+                # lighter forward quarks keep their drawn scales; the coupling reference stays below every forward reference scale that matters
+                if QREF[nf_ref] > scale:
+                    continue
+                name = f"C18.bounded.fixed_point_across_thresholds[nfref={nf_ref},quark={quark},scale={scale},order={order},{method.value}]"
+                try:
+                    fixed_points((vals, scales, nf_ref, order, method, [1.0, 1.0, 1.0], 1.0))
+                    emit(name, True)
+                except Exception as e:
+                    emit(name, False, f"{type(e).__name__}: {str(e)[:300]}")
     # inconsistent inputs must be refused with ValueError
     for nf_ref in (3, 4, 5, 6):
         for q in (0, 1, 2):
             vals, scales = draw(nf_ref, consistent=False, break_quark=q)
-            ci = CouplingsInfo.from_dict(dict(alphas=0.118 if nf_ref >= 5 else 0.35, alphaem=0.007496, ref=(QREF[nf_ref], nf_ref), em_running=False))
+            ci = CouplingsInfo.from_dict(dict(alphas=ALPHAS[nf_ref], alphaem=0.007496, ref=(QREF[nf_ref], nf_ref), em_running=False))
             mref = HeavyQuarkMasses([QuarkMassRef([v, s]) for v, s in zip(vals, scales)])
             name = f"C18.bounded.inconsistent_refused[nfref={nf_ref},quark={q}]"
             try:
